@@ -1538,9 +1538,9 @@ class VM:
                 # Use comparator if provided
                 if comparator is not UNDEFINED:
                     result = vm._call_callback(comparator, [a, b])
-                    # Convert to integer for cmp_to_key
-                    num = to_number(result) if result is not UNDEFINED else 0
-                    return int(num) if isinstance(num, (int, float)) else 0
+                    # Only the sign matters to cmp_to_key; NaN compares as equal
+                    num = to_number(result)
+                    return (num > 0) - (num < 0)
                 return default_compare(a, b)
 
             # Sort using Python's sort with custom key
